@@ -1049,7 +1049,14 @@ def check_mol(ctx, spec, rec, B: Bucket, report, tag, axis_today=True):
         report(size, obl, f"{what}:{key0}", observed, text + " (model and implementation disagree)", dict(rp0, what=what), found=None, dep=failed)
 
     try:
-        mol = MolGrid(np.array([1] * len(atoms)), [a[1] for a in atoms], aim.copy(), store=True)
+        if spec.get("aim_form") == "callable":
+            def aim_arg(points, atcoords, atnums, indices):
+                return aim.copy()
+        else:
+            aim_arg = aim.copy()
+        mol = MolGrid(np.array([1] * len(atoms)), [a[1] for a in atoms], aim_arg, store=True)
+        if not np.array_equal(np.asarray(mol.aim_weights, dtype=float), aim):
+            orep("mol_aim_weights", str(np.asarray(mol.aim_weights).ravel()[:3].tolist()), "MolGrid.aim_weights differ from the weights it was constructed with")
         # the atomic interpolants of w_A f, built independently of MolGrid.interpolate
         bounds = np.concatenate([[0], np.cumsum(sizes)]).astype(int)
         singles = [a[1].interpolate((f * aim)[bounds[i]:bounds[i + 1]]) for i, a in enumerate(atoms)]
@@ -1059,6 +1066,7 @@ def check_mol(ctx, spec, rec, B: Bucket, report, tag, axis_today=True):
         orep("mol_interpolate", type(e).__name__, f"MolGrid.interpolate raised {type(e).__name__}: {e}")
         return
     ctx.count(f"mol_atoms={len(atoms)}")
+    ctx.count(f"mol_aim={spec.get('aim_form', 'array')}")
     Ks = [a[2].K for a in atoms]
     if len(rec.splines) != sum(Ks):
         orep("mol_n_splines", len(rec.splines), f"MolGrid.interpolate built {len(rec.splines)} splines, expected {sum(Ks)}")
@@ -1152,9 +1160,12 @@ def plan(ctx: Ctx):
         forced = {0: ("zero", True), 1: ("tiny", True)}.get(j % 8 if not ctx.quick else j, (None, False))
         cfgs.append(make_config(rng, m, k, lead=forced[0], rotated=forced[1]))
     mols = []
-    for _ in range(1 if ctx.quick else 10):
+    # molecules with ONE, two and three centres (the sum over atoms has a single term for a lone atom, whose aim weights
+    # need not be one: e.g. one fragment of a larger partition), aim weights given as an array or as a callable
+    natoms = [1, rng.choice([2, 3])] if ctx.quick else [1, 1, 2, 2, 3, 1, 2, 3, 2, 3, 1, 2]
+    for na in natoms:
         atoms = []
-        for _ in range(rng.choice([2, 2, 3])):
+        for _ in range(na):
             c = make_config(rng, rng.choice(["lebedev", "spherical"]), rng.choice(["uniform", "mixed"]))
             # small shells keep the molecular case cheap; distinct centres
             c["r"], c["w"], c["coef"] = c["r"][:4], c["w"][:4], c["coef"][:4]
@@ -1162,7 +1173,7 @@ def plan(ctx: Ctx):
                 c["degrees"] = c["degrees"][:4]
             c["center"] = [str(Fraction(rng.randint(-12, 12), 4)) for _ in range(3)]
             atoms.append(c)
-        mols.append({"atoms": atoms, "pseed": rng.randrange(2 ** 30)})
+        mols.append({"atoms": atoms, "aim_form": rng.choice(["array", "array", "callable"]), "pseed": rng.randrange(2 ** 30)})
     return cfgs, mols
 
 
@@ -1248,7 +1259,8 @@ def run(ctx: Ctx):
                        "three centres, rotation seeds {0, 1, 7, 2023}; f = sum_{l <= L} g_lm(r_i) Y_lm with integer tables g in [-3, 3], L <= min(3, min d_i / 2), "
                        "either single-valued at the centre or defined through the canonical angles there; a second table exercises the cached basis and the "
                        "stacked (2, N) input; 14-16 evaluation points per grid (centre, both polar half-axes, coordinate planes, beyond the last shell, grid "
-                       "points, random dyadic) x 8 call modes; distinct = (grid, routine / mode); every observed array is compared inside Coq with the model at "
+                       "points, random dyadic) x 8 call modes; molecular grids with 1, 2 and 3 centres (a one-centre molecule in every run), random dyadic aim weights "
+                       "(not identically one) passed as an array or as a callable, arbitrary (not band-limited) function values, 6 call modes; distinct = (grid, routine / mode); every observed array is compared inside Coq with the model at "
                        "exact rationals and, independently, with the property's own oracle")
     ctx.cov["constants_from_source"] = consts
     ctx.cov["atomic_grids"] = len(cfgs)
